@@ -411,7 +411,14 @@ def execute(program, ctx, mode):
             exp, elog = model(case, ob, I, hooks)
             del calls[:]
             try:
-                r = I(ob, ALT) if case['alt'] else I(ob)
+                # the call style rotates: positional, keyword, mixed
+                style = step % 3
+                if style == 1:
+                    r = I(obj=ob, alternate=ALT) if case['alt'] else I(obj=ob)
+                elif style == 2:
+                    r = I(ob, alternate=ALT) if case['alt'] else I(ob)
+                else:
+                    r = I(ob, ALT) if case['alt'] else I(ob)
                 got = ('ret', r)
             except BaseException as e:     # noqa
                 nm = type(e).__name__
